@@ -107,6 +107,9 @@ def gen_time(rng, fi):
         frac = kind[:-1] + kind[-1] * n; info["frac"] = n; info["fkind"] = kind
         if "F" in kind: info["padded"] = False
     use_t = info["h12"] and ampm_ok(fi) and rng.random() < 0.8
+    if rng.random() < 0.12:          # a redundant second hour field of the other kind (both must agree; the 24-hour one decides the value)
+        other = rng.choice(["H", "HH"]) if info["h12"] else rng.choice(["h", "hh"])
+        parts.append(other); info["both_hours"] = True; info["padded"] &= len(other) == 2
     out = parts[0]
     prev_sep = None
     for p in parts[1:]:
@@ -135,7 +138,7 @@ def gen_time(rng, fi):
 def rep_time(rng, info):
     from pyoda_time import LocalTime
     h = rng.choice([0, 11, 12, 13, 23, rng.randrange(24)])
-    if info["h12"] and not info["ampm"]:
+    if info["h12"] and not info["ampm"] and not info.get("both_hours"):
         h = rng.randrange(12)
     m = rng.choice([0, 59, rng.randrange(60)]) if info["min"] else 0
     s = rng.choice([0, 59, rng.randrange(60)]) if info["sec"] else 0
